@@ -208,13 +208,20 @@ enum CompressionCodec {
 	Zstandard,
 }
 
+/// As per the specification, if the codec is absent, it is assumed to be "null"
+impl Default for CompressionCodec {
+	fn default() -> Self {
+		CompressionCodec::Null
+	}
+}
+
 const HEADER_CONST: [u8; 4] = [b'O', b'b', b'j', 1u8];
 
 #[derive(serde_derive::Deserialize, serde_derive::Serialize)]
 struct Metadata<S, M> {
 	#[serde(rename = "avro.schema")]
 	schema: S,
-	#[serde(rename = "avro.codec")]
+	#[serde(rename = "avro.codec", default)]
 	codec: CompressionCodec,
 	#[serde(flatten)]
 	user_metadata: M,
